@@ -53,6 +53,7 @@ def run(ctx, col, tier):
     col.guard(definitions, ctx, col)
     col.guard(c08.thresholds, ctx, col)
     col.guard(padding, ctx, col)
+    col.guard(front_end, ctx, col)
 
 
 # --------------------------------------------------------------------------- dispatch
@@ -418,6 +419,34 @@ def definitions(ctx, col):
 
 
 # --------------------------------------------------------------------------- population rows
+
+
+def front_end(ctx, col):
+    """The extractor front end hands the feature name and its options to the evaluator, one request at a time."""
+    repo = ctx.repo
+    g = repo.get_def(f"{FX}.FeatureExtractor.get")
+    col.text_group("R-PAD", g.qualname, g, [
+        ("a dict of requests: every feature with its own options", ["if isinstance(feature, dict): return {k: self._get(k, **v) for k, v in feature.items()}"], "fe:dict"),
+        ("a list of requests: one result per request, in order", ["if isinstance(feature, list): return [self._get(k) for k in feature]"], "fe:list"),
+        ("a single request with its options", ["return self._get(feature, **kwargs)"], "fe:one")], fixed=("feature", "kwargs"))
+    h = repo.get_def(f"{FX}.FeatureExtractor._get")
+    col.text_group("R-PAD", h.qualname, h, [
+        ("name and options of the request", ["feat, kwargs = _get_feat_and_kwargs(feature, **kwargs)"], "fe:split"),
+        ("a dedicated getter, when there is one, receives the options",
+         ["if callable((custom_get := getattr(self, f'get_{feat}', None))): return custom_get(**kwargs)"], "fe:custom"),
+        ("otherwise the generic implementation, with the options", ["return self._get_impl(feat, **kwargs)"], "fe:impl")], fixed=("feature", "kwargs", "_get_feat_and_kwargs"))
+    f = repo.get_def(f"{FX}.Features.get")
+    col.text_group("R-PAD", f.qualname, f, [
+        ("name and options of the request", ["feat, kwargs = _get_feat_and_kwargs(feature, **kwargs)"], "ft:split"),
+        ("the evaluator of that name", ["evaluator = self.get_evaluator(feat)"], "ft:eval"),
+        ("is called with the options on every request", ["return evaluator(**kwargs)"], "ft:call")], fixed=("feature", "kwargs", "_get_feat_and_kwargs"))
+    pp = repo.get_def(f"{FX}.PopulationsFeatureExtractor._get_impl")
+    col.text_group("R-PAD", pp.qualname, pp, [
+        ("one row per tree of every population, in order", ["vals = [[f.get(feature, **kwargs) for f in fs] for fs in self._features]"], "pp:rows"),
+        ("padded to the most trees", ["len_max1 = max(len(v) for v in vals)"], "pp:max1"),
+        ("... and to the longest row", ["len_max2 = max(*chain.from_iterable(((len(vv) for vv in v) for v in vals)))"], "pp:max2"),
+        ("zeros elsewhere", ["out = np.zeros((len(vals), len_max1, len_max2), dtype=np.float32)"], "pp:zeros"),
+        ("row j of population i goes to out[i, j]", ["out[i, j, :len(vv)] = vv"], "pp:fill")], fixed=("feature", "kwargs", "chain"))
 
 
 def padding(ctx, col):
